@@ -293,8 +293,12 @@ fn macro_expand(
         .iter()
         .enumerate()
         .filter(|(i, x)| {
-            !x.borrow().is_empty()
-                || (*i == last && (*i > 0 || x.borrow().address != start_address))
+            let x = x.borrow();
+            !x.is_empty()
+                || (*i == last && (*i > 0 || x.address != start_address))
+                // an .org directly followed by a segment directive: the segment holds nothing,
+                // but it carries the position for what comes next in that memory
+                || (x.address != 0 && (*i > 0 || x.address != start_address))
         })
         .map(|(_, x)| x.borrow().clone())
         .collect();
